@@ -1,11 +1,11 @@
 """C16 — configuration independence: same seeded histories in {debug, release} x {even, odd}; every configuration must agree with the
 configuration-free value model M1 step by step and the per-history digests (ops, outcomes, returns, lengths, contents) must coincide."""
-import eng_heap, eng_buf
+import eng_heap, eng_buf, eng_feat
 PROP = "C16"
 NEEDS = {"profiles": ["debug", "release"], "modelrun": True}
 RULE = ("the E1 histories of C01/C04/C13 and the E2/E3 Buf scripts of C10 run with identical seeds in debug/even, debug/odd, release/even, release/odd; "
         "digest per history over (operation, outcome class, return value, id/kind/len/contents of every live handle); non-trivial = history with >= 2 live handles or a panic")
-ASSUMPTIONS = ["feature sets (no-default-features, extra-platforms) are compile-time selections outside the model: exercised by correspondence in the thorough tier only"]
+ASSUMPTIONS = ["feature sets are compile-time selections outside the Coq models: decided by differential execution (engine E9: builds without std, with std, thorough tier also with extra-platforms; identical seeded programs over the feature-independent API; transcripts compared line by line)"]
 TRUSTED_EXTRA = []
 DIRECT = r"^c16-|^c01-|^c13-(missing|unexpected)"
 def translators(ctx, bins):
@@ -16,6 +16,28 @@ def engines(ctx, bins):
     eng_heap.absorb(ctx, res, DIRECT)
     for d in res.get("c16", []): ctx.failing.append({"kind": "c16-digest", "detail": d, "case": d})
     ctx.cov["digests_compared"] = res.get("digest_count", 0)
-    r2 = eng_buf.run(ctx, bins)        # getters in both profiles (D3-type differences)
+    r2 = eng_buf.run(ctx, bins)        # the Buf scripts (cursor laws, copies, getters, adapters) in both profiles with the same seeds
     eng_buf.absorb(ctx, r2, r"^c10-")
-def replay(ctx, bins, payload): eng_heap.replay(ctx, bins, payload, DIRECT)
+    # profile dependence of ANY Buf observable: a deviation from the model that one profile shows and the other does not (same seeds, same scripts)
+    by = {"debug": set(), "release": set()}
+    for m in r2["mism"]:
+        if m.get("prof") in by and not m["kind"].startswith("c10-"): by[m["prof"]].add((m["kind"], m["detail"]))
+    for prof, other in (("release", "debug"), ("debug", "release")):
+        for kind, detail in sorted(by[prof] - by[other])[:20]:
+            rec = {"kind": "c16-profile-dependent", "detail": "[%s only] %s: %s" % (prof, kind, detail), "case": detail.split(" :: ")[-1]}
+            ctx.failing.append(rec)
+    ctx.cov["buf_mismatches_by_profile"] = {k: len(v) for k, v in by.items()}
+    eng_feat.absorb(ctx, eng_feat.run(ctx))        # feature sets: no-std vs std (thorough: + extra-platforms), transcripts must be identical
+def replay(ctx, bins, payload):
+    if (payload.get("mismatch") or "").startswith("c16-profile"):
+        import subprocess
+        outs = {}
+        for prof in ("debug", "release"):
+            p = subprocess.run([bins[prof], "buf-replay"], input=(payload.get("case") or "") + "\n", capture_output=True, text=True, timeout=60)
+            outs[prof] = p.stdout.strip(); print("[%s] %s" % (prof, outs[prof]))
+        if outs["debug"] != outs["release"]:
+            ctx.failing.append({"kind": "c16-profile-dependent", "detail": "debug: %s | release: %s" % (outs["debug"][:300], outs["release"][:300]), "case": payload.get("case")})
+        return
+    if (payload.get("mismatch") or "").startswith("c16-feature"):
+        eng_feat.absorb(ctx, eng_feat.run(ctx)); return
+    eng_heap.replay(ctx, bins, payload, DIRECT)
